@@ -47,8 +47,8 @@ INHERITED = {      # accessibles the SECoP base classes bring along (generator k
     'Drivable': ['value', 'status', 'pollinterval', 'target', 'stop'],
 }
 SHIPPED_QUICK = ['demo', 'cryo']
-SHIPPED_THOROUGH = ['demo', 'cryo', 'sim', 'test', 'sim_mlz_cci3he1', 'sim_mlz_entangle_simulation',
-                    'sim_mlz_htf02', 'ls370sim']
+SHIPPED_THOROUGH = ['demo', 'cryo', 'sim', 'test', 'sim_mlz_cci3he1', 'sim_mlz_htf02', 'ls370sim']
+# (sim_mlz_entangle_simulation blocks in a driver when its simulation threads do not run)
 
 
 # ------------------------------------------------------------------ alpha: numbers, datainfo, JSON values
@@ -465,6 +465,11 @@ def _shipped(cfg):
     import signal
     signal.signal(signal.SIGINT, signal.SIG_DFL)      # Server.__init__ installed handlers in this worker process
     signal.signal(signal.SIGTERM, signal.SIG_DFL)
+
+    def _stuck(*_):
+        raise MachineryError(f'shipped configuration {cfg}: a driver blocks without its threads')
+    signal.signal(signal.SIGALRM, _stuck)
+    signal.alarm(300)
     sec = srv.secnode
     expect = {}
     base_names = ('Drivable', 'Writable', 'Readable', 'Communicator', 'Module')
@@ -502,6 +507,7 @@ def _shipped(cfg):
         for act in ('read', 'change', 'do', 'activate'):
             p.request(act, m, 'value', 1 if act == 'change' else None)
         p.request('activate', m, '', None)
+    signal.alarm(0)
     hidden = [[m, w] for m, obj in sec.modules.items() for w, a in obj.accessiblename2attr.items()
               if not obj.accessibles[a].export]
     return {'cfg': cfg, 'trace': p.trace(expect, rank=True), 'raw': [dict(e, upd=len(e['upd'])) for e in p.events],
